@@ -276,6 +276,23 @@ class INSMonitors:
 
     # ------------------------------------------------------------------ C15
     def _reached(self, ns, crit):
+        """Stopping decision recomputed from the *user's* configuration (criterion names paired with the tolerances in the order the user gave them, any/all as
+        the user asked), using the criterion values the sampler reports by name; falls back to the sampler's own lists when the user configuration is unknown."""
+        uc = getattr(self, "user_criteria", None)
+        if uc:
+            vals = []
+            for name, tol in uc["pairs"]:
+                canon = next((k for k, al in ns.stopping_criterion_aliases.items() if name in al), None)
+                if canon is None:
+                    return self._reached_own(ns, crit)
+                # value compared at this point = the entry of the sampler's criterion vector for that criterion (inf before the first iteration)
+                v = crit[ns.stopping_criterion.index(canon)] if canon in ns.stopping_criterion else getattr(ns, canon, np.inf)
+                vals.append((v, tol))
+            flags = [v <= t for v, t in vals]
+            return any(flags) if uc["any"] else all(flags)
+        return self._reached_own(ns, crit)
+
+    def _reached_own(self, ns, crit):
         flags = [c <= t for c, t in zip(crit, ns.tolerance)]
         return any(flags) if ns._stop_any else all(flags)
 
